@@ -269,6 +269,7 @@ type blockInfo struct {
 }
 
 type fnCtx struct {
+	noEval bool // expanding a named condition: its calls were already made
 	e       *Engine
 	fn      *Func
 	info    *types.Info
@@ -608,6 +609,14 @@ func (c *fnCtx) condAlts(x ast.Expr, want bool, base Event) alts {
 				if pure {
 					return c.condAlts(ds.rhs, want, base)
 				}
+				// with calls: they were made (and recorded) where the local got its value; the tests on their results
+				// are what the guard adds
+				if !c.noEval {
+					c.noEval = true
+					a := c.condAlts(ds.rhs, want, base)
+					c.noEval = false
+					return a
+				}
 			}
 		}
 	case *ast.BinaryExpr:
@@ -630,6 +639,9 @@ func (c *fnCtx) condAlts(x ast.Expr, want bool, base Event) alts {
 	g.Pos = x.Pos()
 	g.Node = x
 	g.Loop = c.inLoop(x.Pos())
+	if c.noEval {
+		return one(g)
+	}
 	return seq(c.exprEvents(x), one(g))
 }
 
